@@ -354,15 +354,16 @@ def decodeN (f : Bytes → R (PyVal × Bytes)) : Nat → Bytes → R (List PyVal
       let (vs, r') ← decodeN f n r
       .ok (v :: vs, r')
 
-/-- `Array._decode_all`: loop until the element decoder raises BufferEmptyError.
-    Fuel makes non-termination (an element type that consumes nothing) an outcome. -/
+/-- `Array._decode_all`: loop until the element decoder raises BufferEmptyError.  An element that was decoded from no
+    bytes (`stream.tell()` did not move) would never exhaust the buffer: DataError.  The fuel is kept for totality. -/
 def decodeAll (f : Bytes → R (PyVal × Bytes)) : Nat → Bytes → R (List PyVal × Bytes)
   | 0, _ => .error .hang
   | fuel + 1, bs =>
       match f bs with
       | .error .bufferEmpty => .ok ([], bs)
       | .error e => .error e
-      | .ok (v, r) => do
+      | .ok (v, r) =>
+          if r.length = bs.length then .error .data else do
           let (vs, r') ← decodeAll f fuel r
           .ok (v :: vs, r')
 
